@@ -50,6 +50,12 @@ def gen(tier, rng, harness=None, driver=None):
         a = " ".join(core3gen.gen_func(rng))
         lines += ["core3.print " + a, "core3.reparse " + a, "!core3.rt " + a]
     lines += core3_parse_stream(rng, driver, n // 2)
+    # M-Meta: the metadata section (numbered tuples with null / reference / string / typed-constant / nested-tuple fields, named metadata): model text ==
+    # implementation text for constructed sections; the proved line readers + translation (duplicate / undefined IDs, merge of named metadata, ordering
+    # by ID and by natural sort) against the real parser on printed sections and 14 kinds of mutants
+    from . import metagen
+    lines += metagen.print_lines(rng, n)
+    lines += metagen.parse_stream(rng, driver, n // 2)
     for t in modprops.corpus_texts():
         lines.append("!mod.stable - %s" % hx(t))
         lines.append("!mod.closure - %s" % hx(t))
@@ -141,6 +147,9 @@ def nontrivial(ln, model_out):
 
 def search(ln, a, b, harness, driver):
     p = ln.split()
+    if p[0] in ("meta.parse", "meta.print"):
+        # the proved model and the implementation differ on this text / section: it is itself the failing input when acceptance differs or the texts differ
+        return {"ops": [ln], "impl": [a], "model": [b]}
     if p[0] in ("core2.readconst", "core2.print", "core2.reparse", "core3.parse", "core3.print", "core3.reparse"):
         return None
     c = "!core.rt " + " ".join(p[1:3])
